@@ -102,6 +102,16 @@ def activation_chain(ev: ast.Module):
             else:
                 raise TranslationError("Activation.__init__: unexpected dict comprehension " + ast.unparse(val))
     if key_attr is None:
+        # the same thing written as a loop: `local = {}` / `for f in functions or []: local[f.__name__] = f`
+        for st in branches["list"]:
+            if (isinstance(st, ast.For) and isinstance(st.target, ast.Name) and not st.orelse and len(st.body) == 1
+                    and ast.unparse(st.iter) in ("functions or []", "functions")
+                    and isinstance(st.body[0], ast.Assign) and len(st.body[0].targets) == 1):
+                tgt, val = st.body[0].targets[0], st.body[0].value
+                if (isinstance(tgt, ast.Subscript) and isinstance(tgt.value, ast.Name) and isinstance(tgt.slice, ast.Attribute)
+                        and _is_name(tgt.slice.value, st.target.id) and _is_name(val, st.target.id)):
+                    key_attr, local_name = tgt.slice.attr, tgt.value.id
+    if key_attr is None:
         raise TranslationError("Activation.__init__: no `{f.__name__: f for f in functions}` in the list branch")
     chains = {k: _chain_args(_functions_assign(b)) for k, b in branches.items()}
     chains["list"] = ["local_functions" if n == local_name else n for n in chains["list"]]
